@@ -12,13 +12,24 @@
     PIV-tool status parser is total and computes the property's own
     description; remote mode refuses the three slot operations.
 
-    NOT modelled (partial): the nine standard agent requests travel through
-    x/crypto's codec and server, relayed byte-for-byte by the forwarder; PEM /
-    x509 parsing.  Those are covered by the correspondence harness only
-    (arguments recorded by the served agent = arguments sent, results seen by
-    the client = results scripted, byte-identical). *)
+    The standard agent requests (list, sign with flags, add with constraints,
+    remove, remove-all, lock, unlock) travel through x/crypto's client and
+    server codecs, relayed byte-for-byte by the forwarder; [Model.AgentStd]
+    models both codecs at the level of the wire format and the theorems
+    [c13_std_*] say that for all arguments whose lengths fit the 32-bit
+    prefixes the served agent receives the request the client was given and
+    the caller receives the agent's answer, a failure as an error.  The
+    harness compares the real frames of both directions with these codecs
+    ([C13Check.CStd]).
+
+    NOT modelled (partial): building key objects from the fields of an
+    add-identity request, extension requests and replies of a foreign type
+    (x/crypto); PEM / x509 parsing.  Those are covered by the correspondence
+    harness only (arguments recorded by the served agent = arguments sent,
+    results seen by the client = results scripted, byte-identical). *)
 From Verif Require Import Lib.Base Lib.Bytes Lib.Wire Generated.YubiAgentGen
-  Model.Wire Model.Slots Model.C13Check Proofs.WireProofs Proofs.SlotsProofs.
+  Model.Wire Model.Slots Model.AgentStd Model.C13Check Proofs.WireProofs Proofs.SlotsProofs
+  Proofs.AgentStdProofs.
 Local Open Scope N_scope.
 
 (** ** Regenerated facts = the documented ones *)
@@ -229,3 +240,66 @@ Example c13_ex_roundtrips :
   dec_add (fun b => if bytes_eqb b (tx "KEY") then Some b else None)
           (31 :: put_string (tx "KEY") ++ put_string (tx "c")) = Val (Some (tx "KEY", tx "c")).
 Proof. exact ex_roundtrips. Qed.
+
+(** ** The standard agent requests (x/crypto's codecs, [Model.AgentStd]) *)
+(** the served agent receives the request the client was given *)
+Theorem c13_std_requests : forall q, req_ok q -> dec_req (enc_req q) = Val (Some q).
+Proof. exact req_roundtrip. Qed.
+Print Assumptions c13_std_requests.
+
+(** the caller receives the agent's answer; a failure is an error *)
+Theorem c13_std_replies : forall q p,
+  resp_for q p = true -> resp_ok p -> dec_std_reply q (enc_resp p) = returned p.
+Proof. exact resp_roundtrip. Qed.
+Print Assumptions c13_std_replies.
+
+(** the whole path, for every served agent *)
+Theorem c13_std_fidelity : forall ag q,
+  req_ok q -> resp_for q (ag q) = true -> resp_ok (ag q) ->
+  through ag q = Val (Some q, returned (ag q)).
+Proof. exact through_fidelity. Qed.
+Print Assumptions c13_std_fidelity.
+
+Theorem c13_std_oracle : forall ag q,
+  req_ok q -> resp_for q (ag q) = true -> resp_ok (ag q) ->
+  exists seen client, through ag q = Val (seen, client) /\ oracle_std q seen (ag q) client = true.
+Proof. exact oracle_std_model. Qed.
+Print Assumptions c13_std_oracle.
+
+(** key constraints: any lifetime, confirmation flag and extensions come back *)
+Theorem c13_std_constraints : forall life conf exts fuel,
+  life < 4294967296 -> Forall ext_ok exts ->
+  (length (enc_constraints life conf exts) <= fuel)%nat ->
+  dec_constraints fuel (enc_constraints life conf exts) 0 false [] = Val (Some (life, conf, exts)).
+Proof. exact constraints_roundtrip. Qed.
+Print Assumptions c13_std_constraints.
+
+(** the server can panic only on an add-identity request (the cut lifetime
+    constraint ServeAgent recovers from) *)
+Theorem c13_std_panic_only_add : forall req,
+  dec_req req = Panic -> exists r, req = 17 :: r \/ req = 25 :: r.
+Proof. exact dec_req_panic. Qed.
+Print Assumptions c13_std_panic_only_add.
+
+(** K6 (known finding): constraint extensions given to the client's Add do not
+    reach the served agent; the server would read them if they were sent *)
+Theorem c13_k6_refuted :
+  dec_req (enc_req (QAdd ex_added_ext)) = Val (Some (QAdd ex_added)) /\ ex_added_ext <> ex_added /\
+  dec_req (25 :: put_string (a_type ex_added_ext) ++ put_strings (a_fields ex_added_ext) ++ put_string (a_comment ex_added_ext)
+                 ++ enc_constraints 3600 true (a_exts ex_added_ext)) = Val (Some (QAdd ex_added_ext)).
+Proof. exact add_exts_k6. Qed.
+Print Assumptions c13_k6_refuted.
+
+Theorem c13_std_fuel : forall f1 f2 c life conf exts,
+  (length c <= f1)%nat -> (length c <= f2)%nat ->
+  dec_constraints f1 c life conf exts = dec_constraints f2 c life conf exts.
+Proof. exact dec_constraints_fuel. Qed.
+Print Assumptions c13_std_fuel.
+
+Example c13_ex_std :
+  through (fun q => match q with QSign _ _ _ => PSig (tx "ssh-ed25519") (hx "0909") [] | QList => PIdents [(ex_blob, tx "c")] | _ => PSuccess end)
+          (QSign ex_blob (hx "deadbeef") 4) =
+    Val (Some (QSign ex_blob (hx "deadbeef") 4), Some (PSig (tx "ssh-ed25519") (hx "0909") [])) /\
+  req_ok (QAdd ex_added) /\ dec_req (enc_req (QAdd ex_added)) = Val (Some (QAdd ex_added)) /\
+  dec_req (17 :: put_string (tx "ssh-ed25519") ++ put_strings [hx "aa"; hx "bb"] ++ put_string [] ++ [1; 0; 0]) = Panic.
+Proof. exact ex_through. Qed.
